@@ -5,7 +5,7 @@ from vf import proggen as G
 PROP = "C01"
 RULE = (
     "Engine-A programs over do/if/when/cond/and/or/not/setv/setx/let/fn+call/operators/get/cut/list/tuple/dict/while(+else)/"
-    "for(+else)/break/continue/return/raise/try(except,else,finally)/with/lfor, nesting depth <= 4 (quick) / 5 (thorough), every "
+    "for(+else)/break/continue/return/raise/try(except,else,finally)/with (1-3 managers, manager expressions that need statements)/lfor, nesting depth <= 4 (quick) / 5 (thorough), every "
     "expression slot filled by a leaf, an effectful expression (E id v) or a statement-producing form; each program is run at "
     "module level and inside a function; oracle: reference interpreter (vf/progs.py) -> result value, escaping exception and a "
     "series-parallel effect trace (documented orders are Seq, argument lists are Par); the real log must have the same multiset "
@@ -70,6 +70,12 @@ def shard(ctx):
 
     ctx.hyp(st.tuples(c12.all_lifted_program(30 if ctx.quick else 50, 2 if ctx.quick else 3), st.sampled_from(["module", "function"])), one,
             ctx.per_shard(1000, 50000), "all-operands-lifted")
+
+    # `with` forms of up to three managers in which a manager expression itself needs statements ((do (E k 0) (CM ...))): Hy then
+    # splits the form into nested `with` statements, and the lifted statements must run exactly once, after the earlier managers
+    # were entered (seeded change C01-E re-compiled the clause and ran them twice)
+    wide = st.tuples(G.program(budget=budget, depth=depth, forms=["with", "withpre", "do2", "if", "setv", "setx", "callfn", "let", "and", "or", "when", "while", "for"]), st.sampled_from(["module", "function"]))
+    ctx.hyp(wide, one, ctx.per_shard(1200, 60000), "with-managers-needing-statements")
 
 
 def _kinds(x):
